@@ -71,6 +71,15 @@ CHECKS = {
          "count; raises exactly when the sequential read raises), *_n_jobs_irrelevant. Correspondence X-count: event and corpus "
          "files incl. empty ones, n_jobs 1..32, lower_case, exact Counter comparison with the model and across n_jobs.",
          "5 C11", "Coq proof (strided partition, counter merge) + exact differential correspondence"),
+ "C15": ("proof", "Theorems C15_create_output_wellformed (+_events, _lines_are_event_lines: every line the creation model writes is a "
+         "well-formed event line, for every corpus/option/oracle under explicit oracle hypotheses that the harness checks on "
+         "its tables and by a full-Unicode scan), C15_filter_preserves_wellformed / C15_filter_stage, C15_stage_roundtrip "
+         "(reader = denotation of the written token lists, [''] for an empty outcome field), C15_checked_file_parses, "
+         "C15_pipeline (creation -> filter -> reader; counts via C11; learners via C01: C15_*_learn; numbering and token order "
+         "irrelevant), with refuted lemmas delimiting the hypotheses. Correspondence X-pipeline: ~960 end-to-end pipelines per "
+         "quick run, every stage's file against its model, learners as exact rationals, activations recomputed exactly. The "
+         "listed finding (label ending in U+0000) is exercised by one dedicated case and printed as KNOWN-FINDING.",
+         "5 addendum C15", "Coq proof (composition of the stage models, bridging lemmas) + stage-by-stage differential correspondence"),
  "C16": ("proof", "Theorems C16_entries (k calls -> exactly k ' | '-separated entries per attribute, in call order), C16_mixed_keys, "
          "C16_number_events (+_sources: chunk jobs, asserted count and loop counter all equal the expanded event count), "
          "C16_parameters, C16_attrs_are_strings, C16_split_join, with refuted lemmas delimiting the hypotheses (late keys, "
